@@ -113,9 +113,13 @@ func (c *Ctx) Pick(q, t int) int {
 	if c.Quick() {
 		return q
 	}
-	if os.Getenv("VERIF_STAGE") == "yield" && t > 4*q {
-		// second stage of a thorough run (perturbed schedules are slower): a quarter of the size
-		return t / 4
+	if os.Getenv("VERIF_STAGE") == "yield" && t > 2*q {
+		// second stage of a thorough run (perturbed schedules are slower): a quarter of the size,
+		// but not less than the quick tier's
+		if t/4 > q {
+			return t / 4
+		}
+		return q
 	}
 	return t
 }
